@@ -60,7 +60,7 @@ def main():
                 fi = doc.get("failing_input")
                 rep = (fi.get("clause") if isinstance(fi, dict) else str(fi)) if fi else None
         results[sid] = {
-            "property": prop, "exit": rc, "detected": rc == 1,
+            "property": prop, "exit": rc, "detected": rc == 1, "expected": meta.get("expected", "violation"),
             "proof_stage_broken": bool(m and m.group(1) != m.group(2)),
             "correspondence_mismatches": int(m.group(4)) if m else None,
             "failing_input_found": bool(line) and "no-failing-input-found" not in line[0],
@@ -79,8 +79,11 @@ def main():
             by = "proof obligation"
         else:
             by = "correspondence"
+        det = "yes" if r.get("detected") else "NO"
+        if r.get("expected") == "not-a-violation-on-this-platform":
+            det = "quiet (holds on this platform)" if not r.get("detected") else "ALARM on a change under which the property holds here"
         lines.append("| %s | %s | %s | %s | %s | %s |" % (
-            sid, r["property"], "yes" if r.get("detected") else "NO", by,
+            sid, r["property"], det, by,
             "yes" if r.get("failing_input_found") else "no",
             (r.get("failing_input_clause") or "").replace("|", "/")[:140]))
     # behaviour-preserving rewrites: every check must stay quiet
